@@ -82,6 +82,13 @@ CLAIMS["C11"] = (
     "DESIGN.md §3 C11",
 )
 
+CLAIMS["C14"] = (
+    "grammar-source reader (precedence chain of mlr.bnf) compared with the documented table and the BIF registry; push/pop typestate, pool-clearing path rule, payload-propagation check, field invariant of TypeGatedMlrvalVariable.value, evaluate→push→bind ordering, loop-shape agreement of the five scope walks",
+    "Decides structural invariants of the interpreter that the language semantics depend on: 17 precedence levels/operators/associativity of the grammar source equal the reference and every operator lexeme is implemented; every frame/frame-set/captures push is popped once on every path; pooled frames are cleared before reuse; every loop/block node propagates return/break payloads and errors; every binding goes through the type gate and copy-on-bind; arguments are evaluated before and bound after the callee's frame push; all five scope walks reach frame 0; interpreter state is per instance and reset per record. Agreement with a reference interpreter over all programs is NOT decided.",
+    "Trusts go/ssa; the generated LR tables are assumed to implement mlr.bnf (the generated parser is emptied in this snapshot and is not analysed). Three grammar/registry mismatches are known findings.",
+    "DESIGN.md §3 C14",
+)
+
 NOT_APPLICABLE = {
     "C13": "Join pairing, ordering and unpaired accounting are relational identities over run-time key values and bucket contents; no clause is a shape fact visible to static analysis (the shared protocol facts are reported under C04/C10/C17).",
 }
